@@ -664,7 +664,16 @@ where
             }
         }
 
-        clamp_gram_determinant(gram_determinant_ldlt(gram_matrix))
+        // A degenerate facet has a rank-deficient Gram matrix, but its determinant rarely
+        // evaluates to exactly zero; rounding noise would be reported as a positive measure.
+        if crate::geometry::matrix::is_numerically_singular(&gram_matrix) {
+            Err(CircumcenterError::MatrixInversionFailed {
+                details: "Degenerate facet with zero measure (Gram matrix is singular up to rounding)"
+                    .to_string(),
+            })
+        } else {
+            clamp_gram_determinant(gram_determinant_ldlt(gram_matrix))
+        }
     })?;
 
     let volume_f64 = {
